@@ -43,6 +43,7 @@ func main() {
 	fs.StringVar(&o.FuncRe, "func", "", "only functions matching this regexp")
 	fs.IntVar(&o.TimeoutS, "timeout", 0, "per-obligation solver timeout (s)")
 	fs.BoolVar(&o.NoLock, "nolock", false, "do not compare with baseline lock")
+	fs.BoolVar(&explainMode, "explain", false, "for failing obligations print the model value of each conjunct of the goal")
 	fs.IntVar(&o.Jobs, "j", runtime.NumCPU(), "parallel solver jobs")
 	var pos []string
 	args := os.Args[2:]
@@ -314,6 +315,19 @@ func runCheck(o *Options, e *Engine, prop string) *CheckRun {
 			case ans.Status == "sat":
 				ob.Status = "sat"
 				ob.Model = ans.Output
+				if explainMode {
+					if i := strings.Index(ans.Output, "EXPLAIN"); i >= 0 {
+						j := strings.Index(ans.Output, "END-EXPLAIN")
+						if j < 0 {
+							j = len(ans.Output)
+						}
+						txt := ans.Output[i:j]
+						if len(txt) > 6000 {
+							txt = txt[:6000]
+						}
+						fmt.Printf("---- %s\n%s\n", shortName(ob.Name), txt)
+					}
+				}
 			default:
 				ob.Status = ans.Status
 			}
